@@ -35,6 +35,24 @@ GetStr(k, name) ==
     LET hits == {i \in 1..Len(k) : Fold(k[i].n) = Fold(name) /\ ~k[i].blk}
     IN IF hits = {} THEN "none" ELSE k[CHOOSE i \in hits : \A j \in hits : j <= i].v
 Contains(k, name) == FindIdx(k, name) # 0
+\* find_all(name): every child with that name, in order (as a list of positions)
+FindAll(k, name) == SelectSeq([i \in 1..Len(k) |-> i], LAMBDA i : Fold(k[i].n) = Fold(name))
+\* find_key(name): position of the last child with that name (0: NoKeyError / default)
+\* find_block(name): position of the last BLOCK child with that name (0: NoKeyError)
+FindBlockIdx(k, name) ==
+    LET hits == {i \in 1..Len(k) : Fold(k[i].n) = Fold(name) /\ k[i].blk}
+    IN IF hits = {} THEN 0 ELSE CHOOSE i \in hits : \A j \in hits : j <= i
+\* set_key((a, b), v) as coded: the block for the first path element is searched for among the
+\* ROOT's children by FOLDED comparison of the given name ... with the stored FOLDED name, last
+\* block wins, else a new empty block is appended; then the last element is set inside it like
+\* SetStr.  (For deeper paths the code keeps searching the ROOT's children at every level, a
+\* deviation from the docstring outside the listed properties; only depth 2 is modelled.)
+SetPath2(k, a, b, val) ==
+    LET i == FindBlockIdx(k, a)
+    IN IF i = 0 THEN Append(k, Block(a, <<Leaf(b, val)>>))
+       ELSE [k EXCEPT ![i] = Block(k[i].n, IF FindIdx(k[i].kids, b) = 0
+                                           THEN Append(k[i].kids, Leaf(b, val))
+                                           ELSE [k[i].kids EXCEPT ![FindIdx(k[i].kids, b)] = Leaf(@.n, val)])]
 
 \* kv[name] = value: the last child with that name becomes a leaf holding value (keeping its
 \* original spelling), otherwise a new leaf is appended
